@@ -70,6 +70,17 @@ func main() {
 			}
 		}
 	}
+	// boundary-directed pairs (deterministic): enumerated like the pool, all forms
+	bnd := boundaryPairs()
+	nPoolOnly := len(poolPairs)
+	var bndKept []bpair
+	for _, bp := range bnd {
+		if k := pkey(bp.A, bp.B); !seen[k] {
+			seen[k] = true
+			poolPairs = append(poolPairs, pairT{bp.A, bp.B})
+			bndKept = append(bndKept, bp)
+		}
+	}
 	rp := e.Rand("pairs")
 	nRand := e.Pick(8000, 400000)
 	for len(randPairs) < nRand {
@@ -122,11 +133,12 @@ func main() {
 	for i, v := range unary {
 		s := &shards[i%nw]
 		s.Unary = append(s.Unary, v)
+		s.Same = append(s.Same, v)
 	}
 	base := 0
 	for i := range shards {
 		shards[i].BaseIdx = base
-		base += len(shards[i].Pairs) + len(shards[i].Unary)
+		base += len(shards[i].Pairs) + len(shards[i].Unary) + len(shards[i].Same)
 	}
 	mg := &merger{best: map[string]found{}, counts: map[string]int{}}
 	var tot struct {
@@ -142,7 +154,7 @@ func main() {
 	t0 := time.Now()
 	lib.ParallelMap(nw, nw, func(w int) {
 		sh := shards[w]
-		n := len(sh.Pairs) + len(sh.Unary)
+		n := len(sh.Pairs) + len(sh.Unary) + len(sh.Same)
 		start := 0
 		for attempt := 0; start < n; attempt++ {
 			if attempt > 25 {
@@ -194,9 +206,13 @@ func main() {
 			if lastB < len(sh.Pairs) {
 				a, b2 = sh.Pairs[lastB][0], sh.Pairs[lastB][1]
 				desc = a.String() + " , " + b2.String()
-			} else {
+			} else if lastB < len(sh.Pairs)+len(sh.Unary) {
 				a = sh.Unary[lastB-len(sh.Pairs)]
 				desc = a.String()
+			} else {
+				a = sh.Same[lastB-len(sh.Pairs)-len(sh.Unary)]
+				b2 = a
+				desc = a.String() + " on both sides"
 			}
 			_, cls := lib.GoCrash(r)
 			site := panicSite(r.Stderr)
@@ -213,7 +229,7 @@ func main() {
 	e.Extra("in_process_wall_s", float64(int(time.Since(t0).Seconds()*10))/10)
 	// ---- engine 2: the real CLI on a seeded sample
 	t1 := time.Now()
-	cliStats := runCLI(e, mg, pool, poolPairs, randPairs, unary, base)
+	cliStats := runCLI(e, mg, pool, poolPairs[:nPoolOnly], bndKept, randPairs, unary, base)
 
 	e.Extra("cli_wall_s", float64(int(time.Since(t1).Seconds()*10))/10)
 	// ---- verdicts
@@ -243,7 +259,9 @@ func main() {
 	e.Extra("in_process_outcomes", tot.outcomes)
 	e.Extra("worker_restarts", tot.restarts)
 	e.Extra("pool_values", len(pool))
-	e.Extra("pool_pairs_enumerated", len(poolPairs))
+	e.Extra("pool_pairs_enumerated", nPoolOnly)
+	e.Extra("boundary_pairs_enumerated", len(bndKept))
+	e.Extra("same_value_items", len(unary))
 	e.Extra("seeded_pairs", len(randPairs))
 	e.Extra("unary_and_truthiness_values", len(unary))
 	e.Extra("operators", map[string]any{"binary": binaryOps, "compound": len(compoundOf), "unary": unaryOps, "truthiness_contexts": len(truthCtxs)})
@@ -344,7 +362,7 @@ func cliLit(v Val) (string, bool) {
 	return v.Lit()
 }
 
-func runCLI(e *lib.Env, mg *merger, pool []Val, poolPairs, randPairs [][2]Val, unary []Val, baseIdx int) cliStatsT {
+func runCLI(e *lib.Env, mg *merger, pool []Val, poolPairs [][2]Val, bnd []bpair, randPairs [][2]Val, unary []Val, baseIdx int) cliStatsT {
 	st := cliStatsT{Outcomes: map[string]int{}}
 	r := e.Rand("cli")
 	var cases []*cliCase
@@ -378,6 +396,34 @@ func runCLI(e *lib.Env, mg *merger, pool []Val, poolPairs, randPairs [][2]Val, u
 			p := randPairs[r.Intn(len(randPairs))]
 			addBin(op, p[0], p[1])
 		}
+	}
+	// boundary-directed pairs, each with the operators it was built for
+	nB := e.Pick(700, len(bnd))
+	for i := 0; i < nB && len(bnd) > 0; i++ {
+		bp := bnd[i]
+		if nB < len(bnd) {
+			bp = bnd[r.Intn(len(bnd))]
+		}
+		addBin(bp.Ops[r.Intn(len(bp.Ops))], bp.A, bp.B)
+	}
+	// the same value on both sides: one script per value, all comparison operators, three forms
+	for i, v := range unary {
+		if i >= len(pool)+e.Pick(20, 400) {
+			break
+		}
+		la, ok := cliLit(v)
+		if !ok {
+			continue
+		}
+		var sb strings.Builder
+		sb.WriteString(cliPrelude + "$a = " + la + ";\n")
+		for _, f := range sameForms {
+			sb.WriteString(f.Pre)
+			for _, op := range cmpOps {
+				sb.WriteString("$r = " + f.L + " " + op + " " + f.R + ";\necho \"\\nC03S|" + f.Name + "|" + op + "|\", gettype($r), \"|\", json_encode($r), \"|\\n\";\n")
+			}
+		}
+		cases = append(cases, &cliCase{kind: "same", a: v, src: sb.String()})
 	}
 	nU := len(pool) + e.Pick(60, 1500)
 	for i, v := range unary {
@@ -479,6 +525,8 @@ func runCLI(e *lib.Env, mg *merger, pool []Val, poolPairs, randPairs [][2]Val, u
 			}
 		case "truth":
 			ws.judgeTruthCLI(c)
+		case "same":
+			ws.judgeSameCLI(c)
 		}
 	}
 	st.Evaluations = ws.evals
@@ -610,7 +658,11 @@ func (ws *workerState) judgeCLI(op, body string, a Val, b *Val, exp Exp, o Outco
 	}
 	if sym := symptom(exp, o); sym != "" {
 		what := fmt.Sprintf("%s gives %s on the CLI, the reference gives %s; operand classes %s", expr, o, expString(exp), subOf(a, b))
-		ws.viol(cell+"/"+sym, what, src)
+		key := cell + "/" + sym
+		if exp.Note != "" {
+			key += "/" + exp.Note
+		}
+		ws.viol(key, what, src)
 	}
 }
 
@@ -674,5 +726,55 @@ func (ws *workerState) judgeTruthCLI(c *cliCase) {
 			ws.viol("truthy-incoherent/"+a.Sub(), what, c.src)
 			break
 		}
+	}
+}
+
+// judgeSameCLI: `v OP v` for the comparison operators in the same-var / alias / ref forms.
+func (ws *workerState) judgeSameCLI(c *cliCase) {
+	v := c.a
+	if crash, _ := lib.GoCrash(c.res); crash {
+		o, _ := cliOutcome(c.res, Exp{})
+		ws.count(o)
+		what := fmt.Sprintf("comparing %s with itself crashes the CLI: %s at %s", v, short(o.Msg, 160), o.Site)
+		ws.viol("panic@"+o.Site+"/"+normPanic(o.Msg), what, c.src)
+		return
+	}
+	res := map[string]map[string]Outcome{}
+	for _, l := range strings.Split(c.res.Stdout, "\n") {
+		f := strings.Split(l, "|")
+		if len(f) < 5 || f[0] != "C03S" {
+			continue
+		}
+		val, ok := cliValue(f[3], f[4], Exp{})
+		if !ok {
+			continue
+		}
+		if res[f[1]] == nil {
+			res[f[1]] = map[string]Outcome{}
+		}
+		res[f[1]][f[2]] = Outcome{T: "value", V: val}
+	}
+	for _, f := range sameForms {
+		for _, op := range cmpOps {
+			o, ok := res[f.Name][op]
+			if !ok {
+				continue
+			}
+			ws.count(o)
+			if v.IsScalar() {
+				exp := refBinary(op, v, v)
+				if exp.Def && !exp.KindOnly {
+					ws.nontriv++
+					if sym := symptom(exp, o); sym != "" {
+						what := fmt.Sprintf("%s %s %s [%s form] gives %s on the CLI, the reference gives %s; operand class %s", v, op, v, f.Name, o, expString(exp), v.Sub())
+						ws.viol("bin/"+op+"/"+kindsKey(v, v)+"/"+sym+"/form="+f.Name, what, c.src)
+					}
+				}
+			}
+		}
+		if v.Kind() == "arr" && f.Name == "alias" {
+			continue
+		}
+		ws.reflexive(v, f.Name, res[f.Name], func(op, what string) string { return c.src })
 	}
 }
